@@ -579,38 +579,47 @@ impl Ctx {
             *r = Some(dr);
         }
         let tb = ok!(self.b.create_topic::<Msg>("QT", "Msg", QosKind::Default, NO_LISTENER, NO_STATUS));
+        // NOTE: the peer uses *equal* values for every request/offer policy whose compatibility
+        // rule is an ordering (presentation, liveliness, ownership), and the weakest request /
+        // strongest offer for the rest, so that the match never depends on dust-dds' QoS matching
+        // rules (those are property C15's business) and survives every mutable change generated.
         if need_reader {
-            let sq = SubscriberQos { partition: PartitionQosPolicy { name: if matches!(e, Ent::P(..)) { vec!["A".into()] } else { vec![] } }, ..Default::default() };
+            let (partition, presentation) = match cur {
+                Q::P(p) => (vec!["A".to_string()], p.presentation.clone()),
+                _ => (vec![], PresentationQosPolicy::default()),
+            };
+            let sq = SubscriberQos { partition: PartitionQosPolicy { name: partition }, presentation, ..Default::default() };
             let sb = ok!(self.b.create_subscriber(QosKind::Specific(sq), NO_LISTENER, NO_STATUS));
-            let ownership = match cur {
-                Q::W(w) => w.ownership.clone(),
-                _ => OwnershipQosPolicy::default(),
+            let (ownership, liveliness) = match cur {
+                Q::W(w) => (w.ownership.clone(), w.liveliness.clone()),
+                _ => (OwnershipQosPolicy::default(), LivelinessQosPolicy::default()),
             };
             let rq = DataReaderQos {
                 reliability: best_effort(),
                 ownership,
+                liveliness,
+                latency_budget: LatencyBudgetQosPolicy { duration: DurationKind::Infinite },
                 representation: DataRepresentationQosPolicy { value: vec![XCDR_DATA_REPRESENTATION, XCDR2_DATA_REPRESENTATION] },
                 ..Default::default()
             };
             let dr = ok!(sb.create_datareader::<Msg>(&tb, QosKind::Specific(rq), NO_LISTENER, NO_STATUS));
             self.peer = Peer::Reader(dr);
         } else {
-            let presentation = PresentationQosPolicy { access_scope: PresentationQosPolicyAccessScopeKind::Topic, coherent_access: true, ordered_access: true };
-            let pq = if matches!(e, Ent::S(..)) {
-                PublisherQos { partition: PartitionQosPolicy { name: vec!["A".into()] }, presentation, ..Default::default() }
-            } else {
-                PublisherQos::default()
+            let (partition, presentation) = match cur {
+                Q::S(p) => (vec!["A".to_string()], p.presentation.clone()),
+                _ => (vec![], PresentationQosPolicy::default()),
             };
+            let pq = PublisherQos { partition: PartitionQosPolicy { name: partition }, presentation, ..Default::default() };
             let pb = ok!(self.b.create_publisher(QosKind::Specific(pq), NO_LISTENER, NO_STATUS));
-            let ownership = match cur {
-                Q::R(r) => r.ownership.clone(),
-                _ => OwnershipQosPolicy::default(),
+            let (ownership, liveliness) = match cur {
+                Q::R(r) => (r.ownership.clone(), r.liveliness.clone()),
+                _ => (OwnershipQosPolicy::default(), LivelinessQosPolicy::default()),
             };
             let wq = DataWriterQos {
                 reliability: reliable(1000),
                 durability: DurabilityQosPolicy { kind: DurabilityQosPolicyKind::TransientLocal },
                 destination_order: DestinationOrderQosPolicy { kind: DestinationOrderQosPolicyKind::BySourceTimestamp },
-                liveliness: LivelinessQosPolicy { kind: LivelinessQosPolicyKind::Automatic, lease_duration: secs(900) },
+                liveliness,
                 deadline: DeadlineQosPolicy { period: secs(1000) },
                 ownership,
                 ..Default::default()
@@ -686,18 +695,6 @@ impl Ctx {
     }
 }
 
-trait MapOut<T> {
-    fn map<U>(self, f: impl FnOnce(T) -> U) -> Out<U>;
-}
-impl<T> MapOut<T> for Out<T> {
-    fn map<U>(self, f: impl FnOnce(T) -> U) -> Out<U> {
-        match self {
-            Out::Ok(v) => Out::Ok(f(v)),
-            o => o.cast(),
-        }
-    }
-}
-
 const ANNOUNCE_BOUND: i64 = 30 * SEC;
 
 async fn scenario(w: World, case: Case) -> Outcome {
@@ -756,7 +753,7 @@ async fn scenario(w: World, case: Case) -> Outcome {
     macro_rules! flag {
         ($policy:expr, $failure:expr, $at:expr, $detail:expr, $step:expr) => {{
             out.findings.push(Finding {
-                sig: format!("{}|{}|{}|at={}|enabled={}", kind.name(), $policy, $failure, $at, yn(enabled)),
+                sig: format!("{}|{}|{}|at={}|enabled={}", kind.name(), $policy, $failure, $at, if $at == "create" { "-" } else { yn(enabled) }),
                 what: format!("{} {}: {} [{}] ({})", kind.name(), $at, $failure, $policy, $detail),
                 step: $step,
             });
@@ -801,6 +798,8 @@ async fn scenario(w: World, case: Case) -> Outcome {
     };
     let mut cur = case.q0.clone();
     let mut matched_once = false;
+    // what the peer saw at the end of the previous announcement check
+    let mut prev_view: Option<Pol> = None;
 
     // get_qos must return `want`; returns the actual value
     macro_rules! check_get {
@@ -855,6 +854,7 @@ async fn scenario(w: World, case: Case) -> Outcome {
                         }
                         sim.sleep(50 * MS).await;
                     }
+                    let last2 = last.clone();
                     match (&last, ok) {
                         (_, true) => {
                             matched_once = true;
@@ -865,9 +865,12 @@ async fn scenario(w: World, case: Case) -> Outcome {
                             matched_once = true;
                             out.checks += 1;
                             let d = diff(&want, v);
-                            let p = d.first().cloned().unwrap_or("?");
-                            let wv = want.iter().find(|x| x.0 == p).map(|x| x.1.clone()).unwrap_or_default();
-                            let pv = v.iter().find(|x| x.0 == p).map(|x| x.1.clone()).unwrap_or_default();
+                            // nothing at all arrived (peer view identical to the one before the
+                            // change): one root cause, whatever policies were changed
+                            let p = if prev_view.as_ref() == Some(v) { "any" } else { d.first().cloned().unwrap_or("?") };
+                            let d0 = d.first().cloned().unwrap_or("?");
+                            let wv = want.iter().find(|x| x.0 == d0).map(|x| x.1.clone()).unwrap_or_default();
+                            let pv = v.iter().find(|x| x.0 == d0).map(|x| x.1.clone()).unwrap_or_default();
                             flag!(p, "not_announced", $at, format!("30 s after the change the peer participant still sees {pv}, get_qos returns {wv}"), $step);
                         }
                         (None, false) => {
@@ -879,6 +882,7 @@ async fn scenario(w: World, case: Case) -> Outcome {
                             }
                         }
                     }
+                    prev_view = last2;
                 }
             }
         }};
@@ -936,6 +940,10 @@ async fn scenario(w: World, case: Case) -> Outcome {
                 if accepted && !expected_ok {
                     let failure = if inc.is_some() { "accepted_inconsistent" } else { "accepted_immutable" };
                     flag!(policy, failure, "set_qos", format!("set_qos({}) on top of {} returned Ok", q.json().to_string(), cur.json().to_string()), step);
+                    // the entity is in a state the contract does not allow: everything after it
+                    // would be a consequence of this finding
+                    out.aborted_at = Some(step);
+                    return out;
                 } else if !accepted && expected_ok {
                     flag!(policy, "rejected_valid", "set_qos", format!("set_qos({}) on top of {} failed with {got}", q.json().to_string(), cur.json().to_string()), step);
                 } else if !accepted {
